@@ -338,28 +338,38 @@ def run_job(args):
                     # the real code, run on a model of this path with ordinary numbers, is judged wrong by the concrete oracle although the value
                     # model followed the path without a finding.  Two causes: behaviour that depends on the KIND of value (numpy scalar, bool,
                     # int) - it shows on every model of the path - or binary rounding at the particular (border) model - it does not.  The
-                    # verdict is therefore asked again on a second model of the same path in which every symbolic input takes another value;
-                    # only a violation on both is reported, a single one is kept as a validation mismatch (inconclusive).
+                    # verdict is therefore asked again on two further models of the same path in which every symbolic input takes values not used before;
+                    # only a violation on all of them is reported, otherwise it is kept as a validation mismatch (inconclusive).
                     confirmed = True
                     diffs = []
                     for name in eng.input_order:
                         v = eng.inputs[name]
                         if not isinstance(v, float):
                             diffs.append(v != m.eval(v, model_completion=True))
-                    if diffs:
+                    seen_models = [m]
+                    for attempt in range(2):          # two further models, each differing from all earlier ones in every symbolic input
+                        if not diffs or not confirmed:
+                            break
                         try:
                             m2 = eng.nice_model(diffs) or eng.path_model(diffs) or eng.nice_model([z3.Or(diffs)]) or eng.path_model([z3.Or(diffs)])
                         except Exception:
                             m2 = None
-                        if m2 is not None:
-                            try:
-                                with contextlib.redirect_stdout(_DEVNULL):
-                                    cres2 = check.concrete(job, to_float_inputs(eng.input_values(m2)))
-                            except Exception as e:
-                                cres2 = None
-                            if not (cres2 and cres2.get('violation')):
-                                confirmed = False
-                                res['mismatches'].append(dict(inputs=jsonable(inputs), diff=['concrete oracle: %s (not on a second model of the path: rounding at this model)' % str(cres.get('violation'))[:200]]))
+                        if m2 is None:
+                            break
+                        try:
+                            with contextlib.redirect_stdout(_DEVNULL):
+                                cres2 = check.concrete(job, to_float_inputs(eng.input_values(m2)))
+                        except Exception as e:
+                            cres2 = None
+                        if not (cres2 and cres2.get('violation')):
+                            confirmed = False
+                            res['mismatches'].append(dict(inputs=jsonable(inputs), diff=['concrete oracle: %s (not on another model of the path: rounding at this model)' % str(cres.get('violation'))[:200]]))
+                            break
+                        seen_models.append(m2)
+                        for name in eng.input_order:
+                            v = eng.inputs[name]
+                            if not isinstance(v, float):
+                                diffs.append(v != m2.eval(v, model_completion=True))
                 if confirmed:
                     cls = None
                     for name, pred in (ctx.last_classes or {}).items():
